@@ -12,9 +12,9 @@
 (*                                                                          *)
 (* The argument universes are supplied by the MC_* instance through the     *)
 (* constant operator ArgsOf(name, heap).                                    *)
-EXTENDS Universe, Json
+EXTENDS Universe, Sem, Json
 
-CONSTANTS ArgsOf(_, _),      \* action name, heap  ->  set of argument records
+CONSTANTS ArgsOf(_, _, _),   \* action name, heap, depth  ->  set of argument records
           InitHeaps,         \* set of initial heaps
           MaxDepth
 
@@ -24,6 +24,7 @@ vars == <<heap, memo, act, ret, depth>>
 KvObj(U)  == [kind |-> "kv", U |-> U]
 CvObj(c)  == [kind |-> "cv", U |-> c.U, P |-> c.P, W |-> c.W]
 NoObj     == [kind |-> "none"]
+NotCurve  == [U |-> <<>>, P |-> <<>>, W |-> <<>>]      \* stands for a non-curve operand
 AsCurve(o) == Curve(o.U, o.P, o.W)
 
 Families == {"closed", "open", "cheby", "gauss"}
@@ -50,69 +51,69 @@ Step(a, h2, r) ==
 KvOut(o, r) == IF r.ok THEN [heap EXCEPT ![o] = KvObj(r.kv)] ELSE heap
 
 KvNew ==      \* constructor: heap[o] is "none" before
-  \E a \in ArgsOf("KvNew", heap) :
+  \E a \in ArgsOf("KvNew", heap, depth) :
      LET r == IF a.deg = -1 THEN NewKV(a.seq) ELSE NewKVDeg(a.seq, a.deg) IN
      Step([name |-> "KvNew"] @@ a, KvOut(a.obj, r), Ret(OkOrVE(r.ok), <<>>))
 
 KvInsert ==   \* kv.insert(nodes), kv += nodes
-  \E a \in ArgsOf("KvInsert", heap) :
+  \E a \in ArgsOf("KvInsert", heap, depth) :
      LET r == InsertKV(heap[a.obj].U, a.nodes) IN
      Step([name |-> "KvInsert"] @@ a, KvOut(a.obj, r), Ret(OkOrVE(r.ok), <<>>))
 
 KvRemove ==   \* kv.remove(nodes), kv -= nodes
-  \E a \in ArgsOf("KvRemove", heap) :
+  \E a \in ArgsOf("KvRemove", heap, depth) :
      LET r == RemoveKV(heap[a.obj].U, a.nodes) IN
      Step([name |-> "KvRemove"] @@ a, KvOut(a.obj, r), Ret(OkOrVE(r.ok), <<>>))
 
 KvShift ==
-  \E a \in ArgsOf("KvShift", heap) :
+  \E a \in ArgsOf("KvShift", heap, depth) :
      LET r == ShiftKV(heap[a.obj].U, a.by) IN
      Step([name |-> "KvShift"] @@ a, KvOut(a.obj, r), Ret("ok", <<>>))
 
 KvScale ==    \* non-positive factor: rejected with some exception
-  \E a \in ArgsOf("KvScale", heap) :
+  \E a \in ArgsOf("KvScale", heap, depth) :
      LET r == ScaleKV(heap[a.obj].U, a.by) IN
      Step([name |-> "KvScale"] @@ a, KvOut(a.obj, r), Ret(IF r.ok THEN "ok" ELSE "Error", <<>>))
 
 KvNormalize ==
-  \E a \in ArgsOf("KvNormalize", heap) :
+  \E a \in ArgsOf("KvNormalize", heap, depth) :
      LET r == NormalizeKV(heap[a.obj].U) IN
      Step([name |-> "KvNormalize"] @@ a, KvOut(a.obj, r), Ret("ok", <<>>))
 
 KvSetDegree ==
-  \E a \in ArgsOf("KvSetDegree", heap) :
+  \E a \in ArgsOf("KvSetDegree", heap, depth) :
      LET r == SetDegreeKV(heap[a.obj].U, a.deg) IN
      Step([name |-> "KvSetDegree"] @@ a, KvOut(a.obj, r), Ret(OkOrVE(r.ok), <<>>))
 
 KvIOr ==      \* kv |= other   (other given by value)
-  \E a \in ArgsOf("KvIOr", heap) :
+  \E a \in ArgsOf("KvIOr", heap, depth) :
      LET r == UnionKV(heap[a.obj].U, a.other) IN
      Step([name |-> "KvIOr"] @@ a, KvOut(a.obj, r), Ret(OkOrVE(r.ok), <<>>))
 
 KvIAnd ==     \* kv &= other
-  \E a \in ArgsOf("KvIAnd", heap) :
+  \E a \in ArgsOf("KvIAnd", heap, depth) :
      LET r == InterKV(heap[a.obj].U, a.other) IN
      Step([name |-> "KvIAnd"] @@ a, KvOut(a.obj, r), Ret(OkOrVE(r.ok), <<>>))
 
 KvOr ==       \* pure: returns a new vector, operands untouched
-  \E a \in ArgsOf("KvOr", heap) :
+  \E a \in ArgsOf("KvOr", heap, depth) :
      LET r == UnionKV(heap[a.obj].U, a.other) IN
      Step([name |-> "KvOr"] @@ a, heap, Ret(OkOrVE(r.ok), IF r.ok THEN r.kv ELSE <<>>))
 
 KvAnd ==
-  \E a \in ArgsOf("KvAnd", heap) :
+  \E a \in ArgsOf("KvAnd", heap, depth) :
      LET r == InterKV(heap[a.obj].U, a.other) IN
      Step([name |-> "KvAnd"] @@ a, heap, Ret(OkOrVE(r.ok), IF r.ok THEN r.kv ELSE <<>>))
 
 KvSplit ==    \* pure: returns the sub-vectors
-  \E a \in ArgsOf("KvSplit", heap) :
+  \E a \in ArgsOf("KvSplit", heap, depth) :
      LET U == heap[a.obj].U
          ok == \A i \in DOMAIN a.nodes : Valid(U, a.nodes[i]) IN
      Step([name |-> "KvSplit"] @@ a, heap,
           Ret(OkOrVE(ok), IF ok THEN (IF a.nodes = <<>> THEN <<U>> ELSE SplitKV(U, a.nodes)) ELSE <<>>))
 
 KvCopy ==     \* copy is equal and independent (the harness mutates the copy)
-  \E a \in ArgsOf("KvCopy", heap) :
+  \E a \in ArgsOf("KvCopy", heap, depth) :
      Step([name |-> "KvCopy"] @@ a, heap, Ret("ok", heap[a.obj].U))
 
 (* queries: answers for every node of a grid, outside nodes raise ValueError *)
@@ -127,7 +128,7 @@ KvView(U) == [deg |-> Deg(U), npts |-> Npts(U), knots |-> Knots(U), limits |-> L
 CvOut(o, c) == [heap EXCEPT ![o] = CvObj(c)]
 
 CvEval ==     \* curve(u), curve([u1..uk]); any node outside  =>  ValueError
-  \E a \in ArgsOf("CvEval", heap) :
+  \E a \in ArgsOf("CvEval", heap, depth) :
      LET c  == AsCurve(heap[a.obj])
          ok == \A i \in DOMAIN a.nodes : Valid(c.U, a.nodes[i]) IN
      Step([name |-> "CvEval"] @@ a, heap,
@@ -135,7 +136,7 @@ CvEval ==     \* curve(u), curve([u1..uk]); any node outside  =>  ValueError
 
 (* Function(U)[:, j](u): the code reports npts rows; row i is N_{i,j}        *)
 FnBasis ==
-  \E a \in ArgsOf("FnBasis", heap) :
+  \E a \in ArgsOf("FnBasis", heap, depth) :
      LET U == heap[a.obj].U
          W == a.weights
          row == IF W = <<>> THEN [i \in 1..(Len(U) - a.j - 1) |-> NN(U, LastSpan(U), i - 1, a.j, a.u)]
@@ -150,7 +151,7 @@ InsertGuard(U, nodes) ==
   /\ LET V == SortedUnion(U, nodes) IN IsKnotVector(V) /\ Deg(V) = Deg(U)
 
 CvKnotInsert ==
-  \E a \in ArgsOf("CvKnotInsert", heap) :
+  \E a \in ArgsOf("CvKnotInsert", heap, depth) :
      LET c  == AsCurve(heap[a.obj])
          ok == InsertGuard(c.U, a.nodes) IN
      Step([name |-> "CvKnotInsert"] @@ a,
@@ -159,7 +160,7 @@ CvKnotInsert ==
 
 (* degree elevation by t >= 1 *)
 CvDegreeIncrease ==
-  \E a \in ArgsOf("CvDegreeIncrease", heap) :
+  \E a \in ArgsOf("CvDegreeIncrease", heap, depth) :
      LET c  == AsCurve(heap[a.obj])
          ok == a.times >= 1
          V  == SetDegreeKV(c.U, Deg(c.U) + a.times).kv IN
@@ -181,17 +182,125 @@ SplitPieces(c, nodes) ==
               IF c.W = <<>> THEN <<>> ELSE [m \in 1..n |-> big.W[s + m]])]
 
 CvSplit ==
-  \E a \in ArgsOf("CvSplit", heap) :
+  \E a \in ArgsOf("CvSplit", heap, depth) :
      LET c  == AsCurve(heap[a.obj])
          ok == \A i \in DOMAIN a.nodes : Valid(c.U, a.nodes[i]) IN
      Step([name |-> "CvSplit"] @@ a, heap,
           Ret(IF ok THEN "ok" ELSE "Error", IF ok THEN SplitPieces(c, a.nodes) ELSE <<>>))
+
+(* split seen as a state change: a := piece i, b := piece i+1 (feeds the join) *)
+CvSplitTake ==
+  \E a \in ArgsOf("CvSplitTake", heap, depth) :
+     LET c  == AsCurve(heap[a.obj])
+         ps == SplitPieces(c, a.nodes) IN
+     Step([name |-> "CvSplitTake"] @@ a,
+          [heap EXCEPT ![a.obj] = CvObj(ps[a.i]), !["b"] = CvObj(ps[a.i + 1])], Ret("ok", <<>>))
+
+(* ---- operations judged relationally (module Sem) ------------------------- *)
+(* ret.rel tells the harness how the observed result is to be judged:          *)
+(*   "exact"  the post-state is unique: compare it with the spec's, bit for bit *)
+(*   "sem"    several representations / outcomes are allowed: the observed      *)
+(*            event goes to Trace.tla, which evaluates the clauses of Sem.tla   *)
+(* For "sem" transitions whose result the model does not construct the heap is  *)
+(* left unchanged (an abstraction; such transitions are leaves of the search).  *)
+RetRel(cls, val, rel) == [class |-> cls, val |-> val, rel |-> rel]
+
+CvKnotRemove ==
+  \E a \in ArgsOf("CvKnotRemove", heap, depth) :
+     LET c == AsCurve(heap[a.obj]) IN
+     IF ~RemoveRequestValid(c, a.nodes)
+     THEN Step([name |-> "CvKnotRemove"] @@ a, heap, RetRel("Error", <<>>, "exact"))
+     ELSE LET V == RemoveKV(c.U, a.nodes).kv IN
+          IF Representable(c, V)
+          THEN Step([name |-> "CvKnotRemove"] @@ a, CvOut(a.obj, Coarsen(c, V)),
+                    RetRel("ok", <<>>, IF c.W = <<>> THEN "exact" ELSE "sem"))
+          ELSE Step([name |-> "CvKnotRemove"] @@ a, heap,
+                    RetRel(IF a.tol[1] = "none" THEN "ok" ELSE "any", <<>>, "sem"))
+
+CvDegreeDecrease ==
+  \E a \in ArgsOf("CvDegreeDecrease", heap, depth) :
+     LET c == AsCurve(heap[a.obj])
+         r == SetDegreeKV(c.U, Deg(c.U) - a.times) IN
+     IF a.times < 1 \/ ~r.ok
+     THEN Step([name |-> "CvDegreeDecrease"] @@ a, heap, RetRel("Error", <<>>, "exact"))
+     ELSE IF Representable(c, r.kv)
+          THEN Step([name |-> "CvDegreeDecrease"] @@ a, CvOut(a.obj, Coarsen(c, r.kv)),
+                    RetRel("ok", <<>>, IF c.W = <<>> THEN "exact" ELSE "sem"))
+          ELSE Step([name |-> "CvDegreeDecrease"] @@ a, heap,
+                    RetRel(IF a.tol[1] = "none" THEN "ok" ELSE "any", <<>>, "sem"))
+
+(* clean family: polynomial curves reach the unique minimal form *)
+CvClean ==
+  \E a \in ArgsOf("CvClean", heap, depth) :
+     LET c == AsCurve(heap[a.obj])
+         d == CASE a.which = "knot"   -> KnotMinimal(c)
+                [] a.which = "degree" -> LowerDegree(c)
+                [] OTHER              -> Minimal(c) IN
+     Step([name |-> "CvClean"] @@ a, CvOut(a.obj, d), RetRel("ok", <<>>, IF c.W = <<>> THEN "exact" ELSE "sem"))
+
+(* A | B, B given by value; pure *)
+CvJoin ==
+  \E a \in ArgsOf("CvJoin", heap, depth) :
+     LET A == AsCurve(heap[a.obj]) B == a.other IN
+     IF Umax(A.U) # Umin(B.U)
+     THEN Step([name |-> "CvJoin"] @@ a, heap, RetRel("ValueError", <<>>, "exact"))
+     ELSE Step([name |-> "CvJoin"] @@ a, heap,
+               IF A.W = <<>> /\ B.W = <<>> THEN RetRel("ok", JoinResult(A, B), "exact")
+               ELSE RetRel("ok", <<>>, "sem"))
+
+(* binary arithmetic with another curve given by value; pure; result judged pointwise *)
+CvArith ==
+  \E a \in ArgsOf("CvArith", heap, depth) :
+     LET A == AsCurve(heap[a.obj]) B == a.other IN
+     Step([name |-> "CvArith"] @@ a, heap,
+          RetRel(IF Limits(A.U) = Limits(B.U) THEN "ok" ELSE "ValueError", <<>>, "sem"))
+
+CvScalar ==
+  \E a \in ArgsOf("CvScalar", heap, depth) :
+     Step([name |-> "CvScalar"] @@ a, heap, RetRel("ok", <<>>, "sem"))
+
+(* A == B, A != B; other given by value ("notcurve" for a non-curve operand) *)
+CvEq ==
+  \E a \in ArgsOf("CvEq", heap, depth) :
+     LET A == AsCurve(heap[a.obj]) IN
+     Step([name |-> "CvEq"] @@ a, heap,
+          RetRel("ok", IF a.other = NotCurve THEN FALSE ELSE EqValue(A, a.other), "exact"))
+
+CvCopy ==
+  \E a \in ArgsOf("CvCopy", heap, depth) :
+     Step([name |-> "CvCopy"] @@ a, heap, RetRel("ok", heap[a.obj], "exact"))
+
+CvFraction ==     \* numerator and denominator splines
+  \E a \in ArgsOf("CvFraction", heap, depth) :
+     LET c == AsCurve(heap[a.obj]) IN
+     Step([name |-> "CvFraction"] @@ a, heap,
+          RetRel("ok", IF c.W = <<>> THEN <<Poly(c.U, c.P)>> ELSE <<Poly(c.U, Homog(c)), Poly(c.U, c.W)>>, "exact"))
+
+CvSetCtrlpoints ==   \* wrong count => ValueError, unchanged
+  \E a \in ArgsOf("CvSetCtrlpoints", heap, depth) :
+     LET c == AsCurve(heap[a.obj]) ok == Len(a.points) = Npts(c.U) IN
+     Step([name |-> "CvSetCtrlpoints"] @@ a,
+          IF ok THEN CvOut(a.obj, Curve(c.U, a.points, c.W)) ELSE heap, RetRel(OkOrVE(ok), <<>>, "exact"))
+
+CvSetKnotvector ==   \* curve.knotvector = V
+  \E a \in ArgsOf("CvSetKnotvector", heap, depth) :
+     LET c == AsCurve(heap[a.obj]) V == a.kv IN
+     IF Limits(V) # Limits(c.U)
+     THEN Step([name |-> "CvSetKnotvector"] @@ a, heap, RetRel("Error", <<>>, "exact"))
+     ELSE IF Refines(V, c.U)
+     THEN Step([name |-> "CvSetKnotvector"] @@ a, CvOut(a.obj, Refine(c, V)), RetRel("ok", <<>>, "exact"))
+     ELSE IF Refines(c.U, V) /\ Representable(c, V)
+     THEN Step([name |-> "CvSetKnotvector"] @@ a, CvOut(a.obj, Coarsen(c, V)),
+               RetRel("ok", <<>>, IF c.W = <<>> THEN "exact" ELSE "sem"))
+     ELSE Step([name |-> "CvSetKnotvector"] @@ a, heap, RetRel("any", <<>>, "sem"))
 
 -----------------------------------------------------------------------------
 Next == /\ depth < MaxDepth
         /\ \/ KvNew \/ KvInsert \/ KvRemove \/ KvShift \/ KvScale \/ KvNormalize
            \/ KvSetDegree \/ KvIOr \/ KvIAnd \/ KvOr \/ KvAnd \/ KvSplit \/ KvCopy
            \/ CvEval \/ FnBasis \/ CvKnotInsert \/ CvDegreeIncrease \/ CvSplit
+           \/ CvKnotRemove \/ CvDegreeDecrease \/ CvClean \/ CvJoin \/ CvArith \/ CvScalar
+           \/ CvEq \/ CvCopy \/ CvFraction \/ CvSetCtrlpoints \/ CvSetKnotvector \/ CvSplitTake
 
 Spec == Init /\ [][Next]_vars
 
@@ -242,6 +351,26 @@ UnionProps ==
         LET U == heap[act'.obj].U V == act'.other
             W == IF act'.name = "KvOr" THEN ret'.val ELSE heap'[act'.obj].U IN
         IsKnotVector(W) /\ Refines(W, U) /\ Refines(W, V)]_vars
+
+(* C05 / C06: the model's own removal / reduction transitions satisfy the relational clauses *)
+RemoveExactOrRefused ==
+  [][(act'.name = "CvKnotRemove" /\ ret'.class \in {"ok", "Error"} /\ act'.tol[1] # "none") =>
+        KnotRemoveClauses(AsCurve(heap[act'.obj]), act'.nodes, act'.tol,
+                          IF ret'.class = "ok" THEN "ok" ELSE "ValueError", AsCurve(heap'[act'.obj])) = {}]_vars
+ReduceExactOrRefused ==
+  [][(act'.name = "CvDegreeDecrease" /\ ret'.class \in {"ok", "Error"} /\ act'.tol[1] # "none") =>
+        DegreeDecreaseClauses(AsCurve(heap[act'.obj]), act'.times, act'.tol,
+                          IF ret'.class = "ok" THEN "ok" ELSE "ValueError", AsCurve(heap'[act'.obj])) = {}]_vars
+(* C14: clean keeps the function, is idempotent, and ends in the minimal form *)
+CleanProps ==
+  [][act'.name = "CvClean" =>
+        LET c == AsCurve(heap[act'.obj]) d == AsCurve(heap'[act'.obj]) IN
+        /\ SameFunction(d, c)
+        /\ (act'.which = "all" /\ c.W = <<>>) => (Minimal(d) = d)]_vars
+(* C07: the join restricts to both operands *)
+JoinRestores ==
+  [][(act'.name = "CvJoin" /\ ret'.class = "ok" /\ ret'.rel = "exact") =>
+        JoinClauses(AsCurve(heap[act'.obj]), act'.other, "ok", ret'.val) = {}]_vars
 
 -----------------------------------------------------------------------------
 (* transition log: one JSON object per explored transition                  *)
